@@ -2,7 +2,8 @@
   constant_to_enum — internal/ast/compiler/constant_to_enum.go.  A matching object whose type
   is a scalar with a non-nil `Value` and `ScalarKind == string` becomes
   `ast.NewEnum([{Type: String(), Name: v, Value: v}])` (fresh type: Nullable/Default/hints of
-  the scalar are dropped); `Value.(string)` is an unchecked assertion.
+  the scalar are dropped); a `string` scalar whose constant is not a string is left alone (fix
+  637545e in /repo; before it `Value.(string)` was an unchecked assertion: `runPreFix`).
 -/
 import Cog.Xform.Common
 namespace Cog.Xform.ConstantToEnum
@@ -22,7 +23,17 @@ def onObj (p : Params) (o : Obj) : Obj :=
     | _ => o
   else o
 
+/-- since fix 637545e in /repo a `string` scalar whose constant is not a string is left alone;
+    only a scalar without its kind struct (nil pointer) still panics -/
 def objFail (p : Params) (o : Obj) : Option Failure :=
+  if matchesAny p.objects o then
+    match o.ty with
+    | .bad "scalar" _ => some .panic
+    | _ => none
+  else none
+
+/-- before fix 637545e: `object.Type.Scalar.Value.(string)` was an unchecked assertion -/
+def objFailPreFix (p : Params) (o : Obj) : Option Failure :=
   if matchesAny p.objects o then
     match o.ty with
     | .bad "scalar" _ => some .panic
@@ -40,5 +51,11 @@ def fail? (p : Params) (S : Schemas) : Option Failure :=
   firstFail (visitSchemaFail (walkFail []) (objFail p)) S
 
 def run (p : Params) (S : Schemas) : Outcome Schemas := mkRun (fail? p S) (apply p S)
+
+def failPreFix? (p : Params) (S : Schemas) : Option Failure :=
+  firstFail (visitSchemaFail (walkFail []) (objFailPreFix p)) S
+
+/-- `Process` as it was before fix 637545e -/
+def runPreFix (p : Params) (S : Schemas) : Outcome Schemas := mkRun (failPreFix? p S) (apply p S)
 
 end Cog.Xform.ConstantToEnum
